@@ -58,7 +58,7 @@ CONSUMERS = {
     "call-cfun": (["tuple"], None, "call"), "call-method": (["tuple"], None, "call"), "call-gen": (["tuple"], None, "call"),
     "call-apply": (["tuple"], None, "call"),
     "asm": (["tuple"], None, "asm"), "asm-env": (["tuple"], None, "asm"), "asm-type": (["tuple"], None, "asm"),
-    "disasm": (["tuple"], None, "asm"), "asm-disasm": (["tuple"], None, "asm"),
+    "disasm": (["tuple"], 256, "asm"), "asm-disasm": (["tuple"], None, "asm"),
     "ffi-struct": (["tuple"], None, "ffi"), "ffi-struct-chain": (["tuple"], None, "ffi"),
     "ffi-write-chain": (["tuple"], None, "ffi"), "ffi-sig-chain": (["tuple"], None, "ffi"),
     "tail": (["tuple"], None, "tail"), "tail-mutual": (["tuple"], None, "tail"), "tail-apply": (["tuple"], None, "tail"),
@@ -90,6 +90,8 @@ def depth_schedule(limits, tier, top):
         ds.add(d)
         d *= 2
     ds.add(top)
+    if tier == "quick":
+        ds.discard(2 ** 19)
     for lim in limits:
         for k in (1, 2):                # several consumers spend 2 guard units per nesting level (others: bisected)
             for e in (-2, -1, 0, 1, 2):
@@ -265,6 +267,8 @@ def run(ctx, only=None):
     try:
         g = cgm.extract(ctx.build)
         ctx.gen("Depth.lean", cgm.render(g))
+        for nm, err in g.exemption_failures:
+            ctx.say("exemption no longer valid: %s: %s" % (nm, err))
         ctx.say("call graph: %d functions, %d call sites, %d on cycles in %d SCCs, %d guard functions; unguarded cycles: %s"
                 % (g.nfuncs, g.ncalls, len(g.nodes), len(g.comps), len(g.guard), g.bad))
     except ExtractError as e:
@@ -278,6 +282,10 @@ def run(ctx, only=None):
             ok, log = ctx.leanchecker("JanetModel.Props.C19")
             if not ok:
                 broken.append("leanchecker JanetModel.Props.C19: " + log[-300:])
+    # corpus: minimised past failures, run first -------------------------------------------------------------------
+    corpus_run(ctx)
+    # (D) correspondence: frame arithmetic of push / call / tail call, model driver vs fiber.c ------------------------
+    corr = tail_correspondence(ctx, g, broken, quick)
     # (E) dynamic sweep ----------------------------------------------------------------------------------------
     v = ctx.try_variant("plain")
     if v is None:
@@ -301,7 +309,7 @@ def run(ctx, only=None):
             jobs.append((c, k, [d for d in sched if d <= t]))
     env = dict(os.environ, ASAN_OPTIONS="detect_leaks=0:abort_on_error=0:detect_stack_use_after_return=0")
     all_crashes, tables, guard_limits = [], {}, {}
-    configs = [("plain-1MB", v["janet"], 1024), ("plain-8MB", v["janet"], 8192)]
+    configs = [("plain-8MB", v["janet"], 8192), ("plain-1MB", v["janet"], 1024)]
     if not quick:
         va = ctx.try_variant("asan")
         if va:
@@ -312,7 +320,8 @@ def run(ctx, only=None):
         if label.startswith("asan"):
             js = [(c, k, [d for d in ds if d <= 2 ** 16]) for c, k, ds in jobs]
         elif kb < 8192:
-            js = [(c, k, [d for d in ds if d <= 2 ** 17]) for c, k, ds in jobs]
+            firsts = set((c, CONSUMERS[c][0][0]) for c in CONSUMERS)
+            js = [(c, k, [d for d in ds if d <= 2 ** 15]) for c, k, ds in jobs if not quick or (c, k) in firsts]
         table, crashes = sweep(ctx, janet, js, kb, 600, env, label)
         lim, cr2 = refine_limits(ctx, janet, table, kb, 600, env, label)
         tables[label] = table
@@ -321,13 +330,23 @@ def run(ctx, only=None):
         ctx.say("sweep %s: %d consumer x kind combinations, %d runs, %d crashes (%.0fs)" % (
             label, len(table), sum(len(r) for r in table.values()), len(crashes) + len(cr2), time.time() - t0))
     # report ---------------------------------------------------------------------------------------------------
+    observations = []
     by_consumer = {}
+    stack_budget_1mb = []
     for cr in all_crashes:
-        by_consumer.setdefault(cr["consumer"], []).append(cr)
-    for c, crs in sorted(by_consumer.items()):
+        if cr["stack_kb"] < 8192:
+            # verdicts only at the default 8 MB stack; the 1 MB sweep is informational (native bytes per level x limit)
+            stack_budget_1mb.append({k: cr[k] for k in ("consumer", "kind", "depth", "variant", "rc")})
+            continue
+        if CONSUMERS[cr["consumer"]][2] == "ffi":
+            # ffi.c (unsafe foreign interface) is not one of the consumers the property names: recorded, not a violation
+            observations.append({k: cr[k] for k in ("consumer", "kind", "depth", "variant", "rc")})
+            continue
+        by_consumer.setdefault((cr["consumer"], cr["variant"].split("-")[1] if "-" in cr["variant"] and not cr["variant"].startswith("asan") else cr["variant"]), []).append(cr)
+    for (c, stack), crs in sorted(by_consumer.items()):
         crs.sort(key=lambda x: (x["depth"], x["variant"]))
         first = crs[0]
-        ctx.violation("crash:" + c,
+        ctx.violation("crash:%s@%s" % (c, stack),
                       {"kind": "crash", "consumer": c, "container": first["kind"], "depth": first["depth"],
                        "stack_kb": first["stack_kb"], "variant": first["variant"], "rc": first["rc"],
                        "last_ok_depth": first.get("last_ok_depth"), "stderr": first["stderr"],
@@ -335,6 +354,18 @@ def run(ctx, only=None):
                        "all": [{k: x[k] for k in ("kind", "depth", "variant", "rc")} for x in crs],
                        "static": [cyc for cyc in (g.bad if g else []) if any(c in ENTRY_CONSUMERS.get(fn, []) for fn in cyc)]},
                       what="consumer `%s` on %s nested %d deep kills the process (rc=%s, %s)" % (c, first["kind"], first["depth"], first["rc"], first["variant"]))
+    # tail calls must COMPLETE at every depth (fiber limited to 256 slots): an error here means a tail call pushed a frame
+    for label, table in tables.items():
+        for (c, k), res in sorted(table.items()):
+            if CONSUMERS[c][2] != "tail":
+                continue
+            badd = sorted(d for d, r in res.items() if r != "ok" and not r.startswith("CRASH"))
+            if badd:
+                ctx.violation("tail-not-constant:" + c, {"kind": "tail", "consumer": c, "container": k, "depth": badd[0], "result": res[badd[0]],
+                                                          "variant": label, "stack_kb": 8192},
+                              what="tail-call loop `%s` of depth %d does not run in constant fiber stack: %s" % (c, badd[0], res[badd[0]]))
+                break
+    by_consumer = {c: v for (c, _), v in by_consumer.items()}
     if g and g.bad:
         covered = set()
         for cyc in g.bad:
@@ -347,7 +378,7 @@ def run(ctx, only=None):
                               {"kind": "broken-obligation", "theorem": "JanetModel.Props.C19.cg_rank_ok", "cycle": cyc,
                                "consumers_tried": [c for fn in cyc for c in ENTRY_CONSUMERS.get(fn, [])]},
                               found=False, what="call cycle without depth guard: %s (no crashing input found)" % " -> ".join(cyc))
-    elif broken:
+    if broken and ctx.nviol == 0:
         ctx.violation("broken:" + broken[0][:80], {"kind": "broken-obligation", "broken": broken}, found=False,
                       what="no longer shown to hold: " + "; ".join(broken)[:600])
     nruns = sum(len(r) for t in tables.values() for r in t.values())
@@ -368,6 +399,11 @@ def run(ctx, only=None):
         "consumers": len(set(c for c, _, _ in jobs)), "combinations": len(jobs), "depths": sched,
         "stack_configs": [c[0] for c in configs], "outcome_histogram": outcomes,
         "guard_depth_found": lim_sample,
+        "observations_out_of_scope": observations,
+        "informational_1MB_stack_crashes": stack_budget_1mb,
+        "tail_frame_correspondence": corr,
+        "exemptions": None if not g else {"bounded_by_argument": g.bounded, "indirect_edges": sorted(set(w for _, _, w in g.exempted)),
+                                          "failed_revalidation": g.exemption_failures},
         "callgraph": None if not g else {"functions": g.nfuncs, "call_sites": g.ncalls, "address_taken": len(g.ir.addr_taken),
                                          "cycle_functions": len(g.nodes), "sccs": len(g.comps), "guards": len(g.guard),
                                          "edges": len(g.edges), "unguarded_cycles": g.bad, "cut": g.cut,
@@ -377,8 +413,97 @@ def run(ctx, only=None):
         "LLVM IR at -O0 is a faithful account of the C call structure; indirect calls over-approximated by same-type address-taken functions",
         "edges into the non-returning janet_panic*/janet_signalv family are cut; exemption list in tools/gen/callgraph.py",
         "guard marks come from source idioms (that the guard is decremented/checked on the recursive path is tested by the sweep, not proved)",
-        "native stack bytes per frame x limit < available stack is a runtime fact: tested at 1 MB and 8 MB",
+        "native stack bytes per frame x limit < available stack is a runtime fact: verdict at the default 8 MB stack, 1 MB informational",
+        "janet-level recursion is bounded by the fiber's maxstack (default 2^31-1 slots = 16 GiB of heap): cyclic inputs to freeze/thaw/deep= are run in a fiber limited to 2^22 slots",
     ])
+
+
+def corpus_run(ctx):
+    cdir = os.path.join(VERIF, "corpus/C19")
+    env = dict(os.environ, ASAN_OPTIONS="detect_leaks=0:abort_on_error=0")
+    vp = ctx.try_variant("plain")
+    va = ctx.try_variant("asan")
+    if not vp or not va:
+        return
+    for f in sorted(os.listdir(cdir)):
+        if not f.endswith(".janet"):
+            continue
+        for label, v in (("plain", vp), ("asan", va)):
+            if label == "asan" and f not in ("binop-method-stack.janet", "tailcall-vararg-realloc.janet"):
+                continue
+            try:
+                r = subprocess.run([v["janet"], os.path.join(cdir, f)], stdout=subprocess.PIPE, stderr=subprocess.PIPE, timeout=600,
+                                   env=env, preexec_fn=_limit_stack(8192))
+                rc, err = r.returncode, r.stderr.decode(errors="replace")
+            except subprocess.TimeoutExpired:
+                continue
+            if is_crash(rc, err):
+                ctx.violation("corpus:" + f, {"kind": "corpus", "file": os.path.join(cdir, f), "variant": label, "rc": rc, "stderr": err[-1500:]},
+                              what="corpus scenario %s kills the process (rc=%s, %s)" % (f, rc, label))
+                break
+
+
+def tail_correspondence(ctx, g, broken, quick):
+    exe = ctx.driver()
+    try:
+        hx = ctx.build.harness("asan", "c19tail", [os.path.join(VERIF, "harness/C19/tailframe.c")])
+    except BuildError as e:
+        broken.append("harness tailframe.c does not compile against the current tree: %s" % str(e)[-300:])
+        ctx.broken.append(broken[-1])
+        return {"sequences": 0}
+    if not exe:
+        broken.append("model driver jm_c19 does not build")
+        return {"sequences": 0}
+    env = dict(os.environ, ASAN_OPTIONS="detect_leaks=0:abort_on_error=0")
+    nseq = 300 if quick else 5000
+    rng = ctx.rng.fork("tailframes")
+    lines_h, kinds = [], {"push": 0, "tail": 0, "call": 0, "arity": 0, "grow": 0}
+    for i in range(nseq):
+        lines_h.append("new %d %d" % (rng.choice([0, 1, 8, 16, 64, 200]), rng.range(0, 40)))
+        for _ in range(rng.range(1, 30)):
+            r = rng.below(10)
+            if r < 4:
+                lines_h.append("push %d" % rng.choice([0, 1, 1, 2, 3, 5, 17, 100]))
+            else:
+                slot = rng.choice([0, 1, 2, 5, 9, 30, 120, 700])
+                arity = rng.range(0, min(slot, 6))
+                vararg = rng.below(3) == 0
+                mn = arity if rng.below(4) else rng.range(0, arity)
+                mx = 2147483647 if vararg else (arity if rng.below(4) else arity + rng.range(0, 3))
+                lines_h.append("%s %d %d %d %d %d" % ("tail" if r < 8 else "call", slot, arity, mn, mx, 1 if vararg else 0))
+    rc, out, err = run_cmd_([hx], "\n".join(lines_h) + "\n", env)
+    impl = out.splitlines()
+    if rc != 0 or len(impl) != len(lines_h):
+        ctx.violation("tailframe-crash", {"kind": "crash", "rc": rc, "stderr": err[-1500:], "ops": lines_h[:max(0, len(impl) - 5):len(impl) + 1][-20:]},
+                      what="fiber frame functions crashed / sanitizer report (rc=%s)" % rc)
+        return {"sequences": nseq, "crashed": True}
+    # the model starts every sequence from the state the implementation reports for the fresh fiber
+    lines_m = []
+    for l, o in zip(lines_h, impl):
+        lines_m.append(("init " + o) if l.startswith("new") else l)
+    lines_m.append("rankok")
+    model = ctx.model(lines_m, exe=exe)
+    diffs = []
+    for l, a, b in zip(lines_h, impl, model):
+        kinds[l.split()[0]] = kinds.get(l.split()[0], 0) + 1
+        if a == "arity":
+            kinds["arity"] += 1
+        if a != b:
+            diffs.append({"op": l, "impl": a, "model": b})
+    if diffs:
+        broken.append("correspondence fiber frame arithmetic: %d differing lines, first %r" % (len(diffs), diffs[0]))
+        ctx.broken.append(broken[-1])
+    drv_ok = model[-1].strip()
+    py_ok = "true" if (g is not None and not g.bad) else "false"
+    if g is not None and not drv_ok.startswith(py_ok):
+        broken.append("driver rankOK=%s but translator found unguarded cycles=%s" % (drv_ok, g.bad))
+        ctx.broken.append(broken[-1])
+    return {"sequences": nseq, "ops": len(lines_h), "op_mix": kinds, "diffs": len(diffs), "first_diffs": diffs[:3], "driver_rankok": drv_ok}
+
+
+def run_cmd_(cmd, inp, env):
+    r = subprocess.run(cmd, input=inp.encode(), stdout=subprocess.PIPE, stderr=subprocess.PIPE, env=env, timeout=600)
+    return r.returncode, r.stdout.decode(errors="replace"), r.stderr.decode(errors="replace")
 
 
 def lean_theorems():
@@ -397,7 +522,10 @@ def lean_theorems():
 def replay(ctx, path):
     r = json.load(open(path))
     print(json.dumps({k: r[k] for k in r if k != "stderr"}, indent=1)[:2000])
-    if r.get("kind") == "crash":
+    if r.get("kind") == "corpus":
+        corpus_run(ctx)
+        return ctx.finish("proof", {"evaluations": 1, "distinct_nontrivial": 1, "rule": "replay of corpus scenario", "samples": [r.get("file")]})
+    if r.get("kind") == "crash" and "consumer" in r:
         variant = r.get("variant", "plain-8MB").split("-")[0]
         v = ctx.try_variant(variant)
         env = dict(os.environ, ASAN_OPTIONS="detect_leaks=0:abort_on_error=0")
